@@ -35,15 +35,54 @@ theorem indexAssert_specV (hr : RecOK r k) (h : PostV c0 c) (hn : Fits (k + 1) c
   · exact Holds.pure h
 
 theorem indexNameValue_spec (h : Post c0 c) (hn : Fits (k + 1) c0 n) :
-    Holds (indexNameValue n) c (fun r c' => c = c' ∧ ∀ name loc, r = some (name, loc) → TokIn c0 loc name) := by
+    Holds (indexNameValue n) c (fun r c' => c = c' ∧ ∀ name loc, r = some (name, loc) → NameIn c0 loc name) := by
   unfold indexNameValue
   split
   · rename_i nm hnm
     split
     · rename_i sv hsv
       split
-      · exact utilsIdentifier_spec h ((hn.sub (Ast.head?_children_sub hnm)).mono.sub (Ast.child_sub hsv))
-      · exact Holds.pure ⟨rfl, by intro _ _ hl; cases hl⟩
+      · rename_i hk
+        exact (utilsIdentifier_spec h ((hn.sub (Ast.head?_children_sub hnm)).mono.sub (Ast.child_sub hsv))
+            (by simpa using hk)).mono
+          (fun _ _ hp => ⟨hp.1, fun name loc hl => Or.inl (hp.2 name loc hl)⟩)
+      · split
+        · dsimp only
+          split
+          · rename_i tok htok
+            have hsvF := (hn.sub (Ast.head?_children_sub hnm)).mono.sub (Ast.child_sub hsv)
+            obtain ⟨hdtok, htokT⟩ := PTree.firstToken_desc htok
+            -- the token spans its text
+            have hstop : ∀ mid : List Char, tok.text.toList = mid → tok.stop = tok.start + byteLen mid := by
+              intro mid hm
+              obtain ⟨txt, hsp⟩ := hsvF.spans
+              obtain ⟨_, pre, m, post, _, hs, _⟩ := hsp.desc hdtok
+              have hmid : tok.text.toList = m := by
+                cases hs with
+                | token k s m => simp [PTree.text]
+                | node => simp [PTree.isToken, PTree.isNode] at htokT
+              rw [← hm, hmid]; exact hs.stop_eq
+            split
+            · exact Holds.pure ⟨rfl, by intro _ _ hl; cases hl⟩
+            · rename_i hguard
+              simp only [Bool.or_eq_true, bne_iff_ne, ne_eq, not_or, Decidable.not_not] at hguard
+              have htext := hguard.2
+              have hq1 : utf8Len '"' = 1 := by decide
+              have hlen := hstop _ htext
+              simp only [byteLen_cons, byteLen_append, byteLen_nil, hq1] at hlen
+              split
+              · omega
+              · refine Holds.bind (currentFileId_spec h) ?_
+                rintro f c' ⟨rfl, hf0, hf⟩
+                refine Holds.pure ⟨rfl, ?_⟩
+                intro name loc hl
+                cases hl
+                obtain ⟨f', hf', hd⟩ := hsvF.cur
+                rw [hf0] at hf'
+                cases hf'
+                exact Or.inr ⟨hf0, tok, hd.trans hdtok, htokT, rfl, by simp only; omega, htext⟩
+          · exact Holds.pure ⟨rfl, by intro _ _ hl; cases hl⟩
+        · exact Holds.pure ⟨rfl, by intro _ _ hl; cases hl⟩
     · exact Holds.pure ⟨rfl, by intro _ _ hl; cases hl⟩
   · exact Holds.pure ⟨rfl, by intro _ _ hl; cases hl⟩
 
@@ -52,7 +91,7 @@ theorem indexDefvar_specV (hr : RecOK r k) (h : PostV c0 c) (hn : Fits (k + 1) c
   unfold indexDefvar
   split
   · rename_i nm hnm
-    refine Holds.bind (utilsIdentifier_spec h.toPost (hn.sub (Ast.child_sub hnm))) ?_
+    refine Holds.bind (utilsIdentifier_spec h.toPost (hn.sub (Ast.child_sub hnm)) (Ast.child_is_kind hnm)) ?_
     rintro x c1 ⟨rfl, hx⟩
     split
     · rename_i name loc
@@ -99,7 +138,7 @@ theorem indexForeachIterator_specV (hr : RecOK r k) (h : PostV c0 c) (hn : Fits 
     fun h1 => ⟨h1, by intro _ _ hl; cases hl⟩
   split
   · rename_i nm hnm
-    refine Holds.bind (utilsIdentifier_spec h.toPost (hn.sub (Ast.child_sub hnm))) ?_
+    refine Holds.bind (utilsIdentifier_spec h.toPost (hn.sub (Ast.child_sub hnm)) (Ast.child_is_kind hnm)) ?_
     rintro x c1 ⟨rfl, hx⟩
     split
     · rename_i name loc
@@ -234,7 +273,7 @@ theorem indexTemplateArgDecl_specV (hr : RecOK r k) (h : PostV c0 c) (hn : Fits 
   unfold indexTemplateArgDecl
   split
   · rename_i nm hnm
-    refine Holds.bind (utilsIdentifier_spec h.toPost (hn.sub (Ast.child_sub hnm))) ?_
+    refine Holds.bind (utilsIdentifier_spec h.toPost (hn.sub (Ast.child_sub hnm)) (Ast.child_is_kind hnm)) ?_
     rintro x c1 ⟨rfl, hx⟩
     split
     · rename_i name loc
@@ -513,7 +552,7 @@ theorem resolveClassRefAsClass_specV (hr : RecOK r k) (h : PostV c0 c) (hn : Fit
   unfold resolveClassRefAsClass
   split
   · rename_i nm hnm
-    refine Holds.bind (utilsIdentifier_spec h.toPost (hn.sub (Ast.child_sub hnm))) ?_
+    refine Holds.bind (utilsIdentifier_spec h.toPost (hn.sub (Ast.child_sub hnm)) (Ast.child_is_kind hnm)) ?_
     rintro x _ ⟨rfl, hx⟩
     split
     · rename_i name loc
@@ -560,7 +599,7 @@ theorem resolveClassRefAsMulticlass_specV (hr : RecOK r k) (h : PostV c0 c) (hn 
   unfold resolveClassRefAsMulticlass
   split
   · rename_i nm hnm
-    refine Holds.bind (utilsIdentifier_spec h.toPost (hn.sub (Ast.child_sub hnm))) ?_
+    refine Holds.bind (utilsIdentifier_spec h.toPost (hn.sub (Ast.child_sub hnm)) (Ast.child_is_kind hnm)) ?_
     rintro x _ ⟨rfl, hx⟩
     split
     · rename_i name loc
@@ -601,7 +640,7 @@ theorem namesClassOnly_spec (h : PostV c0 c) (hn : Fits (k + 1) c0 n) :
   unfold namesClassOnly
   split
   · rename_i nm hnm
-    refine Holds.bind (utilsIdentifier_spec h.toPost (hn.sub (Ast.child_sub hnm))) ?_
+    refine Holds.bind (utilsIdentifier_spec h.toPost (hn.sub (Ast.child_sub hnm)) (Ast.child_is_kind hnm)) ?_
     rintro x c' ⟨hcc, _⟩
     subst hcc
     split
@@ -746,7 +785,7 @@ theorem indexFieldDef_specV {rid : Nat} (hr : RecOK r k) (h : PostV c0 c) (hn : 
   dsimp only
   split
   · rename_i nm hnm
-    refine Holds.bind (utilsIdentifier_spec h.toPost (hn.sub (Ast.child_sub hnm))) ?_
+    refine Holds.bind (utilsIdentifier_spec h.toPost (hn.sub (Ast.child_sub hnm)) (Ast.child_is_kind hnm)) ?_
     rintro x c' ⟨hcc, hx⟩
     subst hcc
     split
@@ -798,7 +837,7 @@ theorem indexFieldLet_specV {rid : Nat} (hr : RecOK r k) (h : PostV c0 c) (hn : 
   unfold indexFieldLet
   split
   · rename_i nm hnm
-    refine Holds.bind (utilsIdentifier_spec h.toPost (hn.sub (Ast.child_sub hnm))) ?_
+    refine Holds.bind (utilsIdentifier_spec h.toPost (hn.sub (Ast.child_sub hnm)) (Ast.child_is_kind hnm)) ?_
     rintro x c' ⟨hcc, hx⟩
     subst hcc
     split
@@ -949,7 +988,7 @@ theorem indexClass_spec (hr : RecOK r k) (h : Post c0 c) (hcf : clsFree c0) (hn 
   unfold indexClass
   split
   · rename_i nm hnm
-    refine Holds.bind (utilsIdentifier_spec h (hn.sub (Ast.child_sub hnm))) ?_
+    refine Holds.bind (utilsIdentifier_spec h (hn.sub (Ast.child_sub hnm)) (Ast.child_is_kind hnm)) ?_
     rintro x c' ⟨hcc, hx⟩
     subst hcc
     split
@@ -1016,23 +1055,20 @@ theorem indexDef_spec (hr : RecOK r k) (h : Post c0 c) (hcf : clsFree c0) (hn : 
     · exact Holds.pure ⟨h3, trivial⟩
   -- allocate the record (named: inside a multiclass or not; or anonymous); `kont` is what follows a named one
   have halloc : ∀ (g : Bool) (kont : Nat → IxM Unit),
-      (∀ (defId : Nat) (name : String) (loc : FileRange) {c1 : IndexCtx}, PostV c c1 → LocIn c loc →
+      (∀ (defId : Nat) (name : String) (loc : FileRange) {c1 : IndexCtx}, PostV c c1 → c.fileTrace.head? = some loc.file →
         defId < c1.symbolMap.sizes.recs →
         c1.symbolMap.record defId = { name := name, kind := .def_, defineLoc := loc } →
         Holds (kont defId) c1 (fun _ c' => Post c c' ∧ True)) →
-      Holds (match Ast.defName n with
-        | some nameValue => do
-          let __x ← indexNameValue nameValue
-          match __x with
-            | some (name, defineLoc) => do
-              let __do_lift ← currentMulticlassId
-              if __do_lift.isSome = true then do
-                  let defId ← addMulticlassDef { name := name, kind := RecordKind.def_, defineLoc := defineLoc }
-                  kont defId
-                else do
-                  let defId ← addRecord { name := name, kind := RecordKind.def_, defineLoc := defineLoc } g
-                  kont defId
-            | x => pure ()
+      ∀ (named : Option (String × FileRange)), (∀ name loc, named = some (name, loc) → NameIn c loc name) →
+      Holds (match named with
+        | some (name, defineLoc) => do
+          let __do_lift ← currentMulticlassId
+          if __do_lift.isSome = true then do
+              let defId ← addMulticlassDef { name := name, kind := RecordKind.def_, defineLoc := defineLoc }
+              kont defId
+            else do
+              let defId ← addRecord { name := name, kind := RecordKind.def_, defineLoc := defineLoc } g
+              kont defId
         | none => do
           let name ← nextAnonymousDefName
           let file ← currentFileId
@@ -1044,26 +1080,20 @@ theorem indexDef_spec (hr : RecOK r k) (h : Post c0 c) (hcf : clsFree c0) (hn : 
               indexRecordBody r body
               scopesPop
             | x => pure () : IxM Unit) c (fun _ c' => Post c c' ∧ True) := by
-    intro g kont hk
+    intro g kont hk named hx
     split
-    · rename_i nv hnv
-      refine Holds.bind (indexNameValue_spec h (hn.sub' (Ast.child_sub hnv))) ?_
-      rintro x c' ⟨hcc, hx⟩
+    · rename_i name loc
+      have hloc := hx name loc rfl
+      refine Holds.bind currentMulticlassId_spec ?_
+      rintro mc c' ⟨hcc, _⟩
       subst hcc
       split
-      · rename_i name loc
-        have hloc := hx name loc rfl
-        refine Holds.bind currentMulticlassId_spec ?_
-        rintro mc c' ⟨hcc, _⟩
-        subst hcc
-        split
-        · refine Holds.bind (addMulticlassDef_step h.inv ⟨rfl, rfl, rfl⟩ (hloc.nodeLoc h) (hloc.tokAt h)) ?_
-          rintro defId c1 ⟨h1, hid, hreq⟩
-          exact hk defId name loc h1 hloc.locIn hid hreq
-        · refine Holds.bind (addRecord_step h.inv _ ⟨rfl, rfl, rfl⟩ (hloc.nodeLoc h) (hloc.tokAt h)) ?_
-          rintro defId c1 ⟨h1, hid, hreq⟩
-          exact hk defId name loc h1 hloc.locIn hid hreq
-      · exact Holds.pure ⟨h, trivial⟩
+      · refine Holds.bind (addMulticlassDef_step h.inv ⟨rfl, rfl, rfl⟩ (hloc.nodeLoc h) (hloc.tokAt h)) ?_
+        rintro defId c1 ⟨h1, hid, hreq⟩
+        exact hk defId name loc h1 hloc.head hid hreq
+      · refine Holds.bind (addRecord_step h.inv _ ⟨rfl, rfl, rfl⟩ (hloc.nodeLoc h) (hloc.tokAt h)) ?_
+        rintro defId c1 ⟨h1, hid, hreq⟩
+        exact hk defId name loc h1 hloc.head hid hreq
     · refine Holds.bind (nextAnonymousDefName_spec h) ?_
       intro name c1 h1
       refine Holds.bind (currentFileId_spec h1) ?_
@@ -1085,20 +1115,60 @@ theorem indexDef_spec (hr : RecOK r k) (h : Post c0 c) (hcf : clsFree c0) (hn : 
   cases dsid with
   | none =>
     dsimp only
-    refine halloc _ _ ?_
-    intro defId name loc c1 h1 hloc hid hreq
-    refine hrest defId h1.toPost hid (by rw [hreq]) ?_
-    rw [hreq, h1.ext.trace]; exact hloc.1
+    have hk : ∀ (defId : Nat) (name : String) (loc : FileRange) {c1 : IndexCtx}, PostV c c1 → c.fileTrace.head? = some loc.file →
+        defId < c1.symbolMap.sizes.recs →
+        c1.symbolMap.record defId = { name := name, kind := .def_, defineLoc := loc } →
+        Holds (do
+          scopesPush (ScopeKind.record defId)
+          match Ast.defRecordBody n with
+            | some body => do
+              indexRecordBody r body
+              scopesPop
+            | x => pure () : IxM Unit) c1 (fun _ c' => Post c c' ∧ True) := by
+      intro defId name loc c1 h1 hloc hid hreq
+      refine hrest defId h1.toPost hid (by rw [hreq]) ?_
+      rw [hreq, h1.ext.trace]; exact hloc
+    split
+    · rename_i nv hnv
+      refine Holds.bind (indexNameValue_spec h (hn.sub' (Ast.child_sub hnv))) ?_
+      rintro x c' ⟨hcc, hx⟩
+      subst hcc
+      exact halloc _ _ hk x hx
+    · refine Holds.bind (R := fun x c' => c = c' ∧ x = none) (Holds.pure (And.intro rfl rfl)) ?_
+      rintro x c' ⟨hcc, hx⟩
+      subst hcc; subst hx
+      exact halloc true _ hk none (by intro _ _ hh; cases hh)
   | some defsetId =>
     obtain ⟨hdv, hdf⟩ := hdsid defsetId rfl
     dsimp only
-    refine halloc _ _ ?_
+    refine (fun (hk : ∀ (defId : Nat) (name : String) (loc : FileRange) {c1 : IndexCtx}, PostV c c1 → c.fileTrace.head? = some loc.file →
+        defId < c1.symbolMap.sizes.recs →
+        c1.symbolMap.record defId = { name := name, kind := .def_, defineLoc := loc } →
+        Holds (do
+          let __r ← defsetMut defsetId fun ds =>
+            { name := ds.name, typ := ds.typ, defList := ds.defList.push defId, defineLoc := ds.defineLoc }
+          scopesPush (ScopeKind.record defId)
+          match Ast.defRecordBody n with
+            | some body => do
+              indexRecordBody r body
+              scopesPop
+            | x => pure () : IxM Unit) c1 (fun _ c' => Post c c' ∧ True)) => ?_) ?_
+    · split
+      · rename_i nv hnv
+        refine Holds.bind (indexNameValue_spec h (hn.sub' (Ast.child_sub hnv))) ?_
+        rintro x c' ⟨hcc, hx⟩
+        subst hcc
+        exact halloc _ _ hk x hx
+      · refine Holds.bind (R := fun x c' => c = c' ∧ x = none) (Holds.pure (And.intro rfl rfl)) ?_
+        rintro x c' ⟨hcc, hx⟩
+        subst hcc; subst hx
+        exact halloc false _ hk none (by intro _ _ hh; cases hh)
     intro defId name loc c1 h1 hloc hid hreq
-    have hhead1 : c1.fileTrace.head? = some loc.file := by rw [h1.ext.trace]; exact hloc.1
+    have hhead1 : c1.fileTrace.head? = some loc.file := by rw [h1.ext.trace]; exact hloc
     refine Holds.bind (defsetMut_pushDef_step h1.inv defsetId hid ?_) ?_
     · intro _
       rw [hreq, h1.ext.sm.dsLoc defsetId hdv]
-      have := hloc.1
+      have := hloc
       rw [hdf] at this
       exact (Option.some.inj this).symm
     · intro _ c2 h12
@@ -1133,38 +1203,64 @@ theorem indexDefm_spec (hr : RecOK r k) (h : Post c0 c) (hcf : clsFree c0) (hn :
   rintro dsid c' ⟨hcc, hdsid⟩
   subst hcc
   dsimp only
-  split
-  · rename_i nv hnv
-    refine Holds.bind (indexNameValue_spec h (hn.sub' (Ast.child_sub hnv))) ?_
-    rintro x c' ⟨hcc, hx⟩
-    subst hcc
+  have hjp : ∀ (named : Option (String × FileRange)), (∀ name loc, named = some (name, loc) → NameIn c0 loc name) →
+      Holds (match named with
+        | some (name, defineLoc) => do
+          let defmId ← addDefm { name := name, defineLoc := defineLoc } dsid.isNone
+          scopesPush (ScopeKind.defm defmId)
+          match Ast.defmParentClassList n with
+            | some parentClassList => do
+              indexParentClassList r parentClassList
+              scopesPop
+            | x => pure ()
+        | none => do
+          let name ← nextAnonymousDefName
+          let file ← currentFileId
+          let defmId ←
+            addAnonymousDefm { name := name, defineLoc := { file := file, start := n.start, stop := n.stop } }
+          scopesPush (ScopeKind.defm defmId)
+          match Ast.defmParentClassList n with
+            | some parentClassList => do
+              indexParentClassList r parentClassList
+              scopesPop
+            | x => pure () : IxM Unit) c (fun _ c' => Post c0 c') := by
+    intro named hx
     split
     · rename_i name loc
       have hloc := hx name loc rfl
       refine Holds.bind (Holds.post h (addDefm_step h.inv _ rfl (hloc.nodeLoc h) (hloc.tokAt h))) ?_
       rintro defId c1 ⟨h1, hid⟩
       exact hrest defId h1 hid
-    · exact Holds.pure h
-  · refine Holds.bind (nextAnonymousDefName_spec h) ?_
-    intro name c1 h1
-    refine Holds.bind (currentFileId_spec h1) ?_
-    rintro file c' ⟨hcc, hf0, hf⟩
+    · refine Holds.bind (nextAnonymousDefName_spec h) ?_
+      intro name c1 h1
+      refine Holds.bind (currentFileId_spec h1) ?_
+      rintro file c' ⟨hcc, hf0, hf⟩
+      subst hcc
+      have hloc : LocIn c0 { file := file, start := n.start, stop := n.stop } := by
+        obtain ⟨f', hf', hd⟩ := hn.cur
+        rw [hf0] at hf'
+        cases hf'
+        exact ⟨hf0, n, hd, rfl, rfl⟩
+      refine Holds.bind (Holds.post h1 (addAnonymousDefm_step h1.inv rfl (hloc.nodeLoc h1))) ?_
+      rintro defId c2 ⟨h2, hid⟩
+      exact hrest defId h2 hid
+  split
+  · rename_i nv hnv
+    refine Holds.bind (indexNameValue_spec h (hn.sub' (Ast.child_sub hnv))) ?_
+    rintro x c' ⟨hcc, hx⟩
     subst hcc
-    have hloc : LocIn c0 { file := file, start := n.start, stop := n.stop } := by
-      obtain ⟨f', hf', hd⟩ := hn.cur
-      rw [hf0] at hf'
-      cases hf'
-      exact ⟨hf0, n, hd, rfl, rfl⟩
-    refine Holds.bind (Holds.post h1 (addAnonymousDefm_step h1.inv rfl (hloc.nodeLoc h1))) ?_
-    rintro defId c2 ⟨h2, hid⟩
-    exact hrest defId h2 hid
+    exact hjp x hx
+  · refine Holds.bind (R := fun x c' => c = c' ∧ x = none) (Holds.pure (And.intro rfl rfl)) ?_
+    rintro x c' ⟨hcc, hx⟩
+    subst hcc; subst hx
+    exact hjp none (by intro _ _ hh; cases hh)
 
 theorem indexDefset_spec (hr : RecOK r k) (h : Post c0 c) (hcf : clsFree c0) (hn : Fits (k + 1) c0 n) :
     Holds (indexDefset r n) c (fun _ c' => Post c0 c') := by
   unfold indexDefset
   split
   · rename_i nm hnm
-    refine Holds.bind (utilsIdentifier_spec h (hn.sub (Ast.child_sub hnm))) ?_
+    refine Holds.bind (utilsIdentifier_spec h (hn.sub (Ast.child_sub hnm)) (Ast.child_is_kind hnm)) ?_
     rintro x c' ⟨hcc, hx⟩
     subst hcc
     split
@@ -1207,7 +1303,7 @@ theorem indexMultiClass_spec (hr : RecOK r k) (h : Post c0 c) (hcf : clsFree c0)
   unfold indexMultiClass
   split
   · rename_i nm hnm
-    refine Holds.bind (utilsIdentifier_spec h (hn.sub (Ast.child_sub hnm))) ?_
+    refine Holds.bind (utilsIdentifier_spec h (hn.sub (Ast.child_sub hnm)) (Ast.child_is_kind hnm)) ?_
     rintro x c' ⟨hcc, hx⟩
     subst hcc
     split
@@ -1459,7 +1555,7 @@ theorem indexType_specV (hr : RecOK r k) (h : PostV c0 c) (hn : Fits (k + 1) c0 
     · exact Holds.pure h
   · split
     · rename_i nm hnm
-      refine Holds.bind (utilsIdentifier_spec h.toPost (hn.sub (Ast.child_sub hnm))) ?_
+      refine Holds.bind (utilsIdentifier_spec h.toPost (hn.sub (Ast.child_sub hnm)) (Ast.child_is_kind hnm)) ?_
       rintro x c' ⟨hcc, hx⟩
       subst hcc
       split
@@ -1482,10 +1578,10 @@ theorem indexType_specV (hr : RecOK r k) (h : PostV c0 c) (hn : Fits (k + 1) c0 
     · exact Holds.pure h
   · exact Holds.pure h
 
-theorem indexIdentifierValue_specV (h : PostV c0 c) (hn : Fits (k + 1) c0 n) :
+theorem indexIdentifierValue_specV (h : PostV c0 c) (hn : Fits (k + 1) c0 n) (hk : n.kind = .Identifier) :
     Holds (indexIdentifierValue n) c (fun _ c' => PostV c0 c') := by
   unfold indexIdentifierValue
-  refine Holds.bind (utilsIdentifier_spec h.toPost hn) ?_
+  refine Holds.bind (utilsIdentifier_spec h.toPost hn hk) ?_
   rintro x c' ⟨hcc, hx⟩
   subst hcc
   split
@@ -1526,7 +1622,7 @@ theorem indexClassValue_specV (hr : RecOK r k) (h : PostV c0 c) (hn : Fits (k + 
   unfold indexClassValue
   split
   · rename_i nm hnm
-    refine Holds.bind (utilsIdentifier_spec h.toPost (hn.sub (Ast.child_sub hnm))) ?_
+    refine Holds.bind (utilsIdentifier_spec h.toPost (hn.sub (Ast.child_sub hnm)) (Ast.child_is_kind hnm)) ?_
     rintro x c' ⟨hcc, hx⟩
     subst hcc
     split
@@ -1590,13 +1686,29 @@ theorem indexSimpleValue_specV (hr : RecOK r k) (h : PostV c0 c) (hn : Fits (k +
     split
     · rename_i vl hvl
       dsimp only
-      refine Holds.bind (Holds.forIn_mem (fun _ c' => PostV c0 c') h ?_) (fun _ c' h' => Holds.pure h')
-      intro v hv b c1 h1
-      refine Holds.bind (hr.valueV h1 ((hn.sub' (Ast.child_sub hvl)).sub (Ast.children_sub hv))) ?_
-      intro t c2 h2
-      split
-      · split <;> exact Holds.pure h2
-      · exact Holds.pure h2
+      have hrg : RangeIn c0 (nodeRange n) := hn.rangeIn
+      refine Holds.bind (Holds.forIn_mem (fun _ c' => PostV c0 c') h ?_) ?_
+      · intro v hv b c1 h1
+        refine Holds.bind (hr.valueV h1 ((hn.sub' (Ast.child_sub hvl)).sub (Ast.children_sub hv))) ?_
+        intro t c2 h2
+        split <;> exact Holds.pure h2
+      · intro vts c1 h1
+        split
+        · rename_i tn htn
+          refine Holds.bind (hr.typV h1 (hn.sub (Ast.child_sub htn))) ?_
+          intro t c2 h2
+          split
+          · refine Holds.bind (Holds.forIn_mem (fun _ c' => PostV c0 c') h2 ?_) (fun _ c' h' => Holds.pure h')
+            intro typ _ cur c3 h3
+            bang_leaf
+            all_goals (try simp only [pure_bind])
+            all_goals bang_leaf
+          · exact Holds.pure h2
+        · refine Holds.bind (Holds.forIn_mem (fun _ c' => PostV c0 c') h1 ?_) (fun _ c' h' => Holds.pure h')
+          intro typ _ cur c3 h3
+          bang_leaf
+          all_goals (try simp only [pure_bind])
+          all_goals bang_leaf
     · exact Holds.pure h
   · -- Dag
     dsimp only
@@ -1624,7 +1736,8 @@ theorem indexSimpleValue_specV (hr : RecOK r k) (h : PostV c0 c) (hn : Fits (k +
       intro _ c1 h1
       exact hjp h1
     · exact hjp h
-  · exact indexIdentifierValue_specV h hn
+  · rename_i hk
+    exact indexIdentifierValue_specV h hn hk
   · exact indexClassValue_specV hr h hn
   · -- BangOperator
     rename_i hkind
@@ -1679,7 +1792,7 @@ theorem indexInnerValue_specV (hr : RecOK r k) (h : PostV c0 c) (hn : Fits (k + 
           · exact Holds.pure h2
         · split
           · rename_i nm hnm
-            refine Holds.bind (utilsIdentifier_spec h2.toPost (hs.sub (Ast.child_sub hnm))) ?_
+            refine Holds.bind (utilsIdentifier_spec h2.toPost (hs.sub (Ast.child_sub hnm)) (Ast.child_is_kind hnm)) ?_
             rintro x c' ⟨hcc, hx⟩
             subst hcc
             split
